@@ -1,8 +1,10 @@
 /-
 C03 — Without concurrency each datatype behaves as its plain data structure.
-(counter, map, list; documents: see the `…_doc` section of DESIGN.md §6 C03 — correspondence only so far)
+Counter, map, list: refinement to `Spec/Plain`.  Documents: refinement to the plain JSON tree of `Spec/PlainDoc`
+(a handle is a pointer to a container node that sits at one path of the tree at any moment) — section `document` below.
 -/
 import Orda.Proofs.PlainRefine
+import Orda.Proofs.DocPlain
 namespace Orda.Props.C03
 open Orda
 
@@ -56,5 +58,56 @@ theorem ok_queues_at_most_one (r : Replica) (c : Call) (h : LocalInv r) (hd : is
 example : LocalInv (Replica.new .list "c" true) := localInv_new .list "c" true (by decide)
 example : ((Replica.new .list "c" true).call (.ldelete 0)).2 = .err Err.illegalParameters := by
   simp [Replica.call, Call.prepare, Replica.new, DState.fresh, Rga.validateRange, Rga.empty, Err.illegalParameters]
+
+/-! ### documents -/
+
+/-- the single-replica invariant of a document holds initially and is kept by EVERY call, valid or not
+    (`CallKeysND`: no object in an argument has a duplicate key — a Go map cannot have one) -/
+theorem doc_invariant_reachable (cuid : String) (create : Bool) (cs : List Call) (hk : ∀ c ∈ cs, DP.CallKeysND c) :
+    DP.DocInv (cs.foldl (fun r c => (r.call c).1) (Replica.new .document cuid create)) :=
+  DP.docInv_calls cuid create cs hk
+
+/-- refinement: a call made through a handle that currently sits at path π of the JSON tree returns what the plain
+    tree returns (values in canonical form) and changes the JSON view exactly as the plain tree changes —
+    put / remove / insert / delete / update at that path, nothing else; refused calls return the plain tree's error code -/
+theorem doc_refines_plain_tree (r : Replica) (d : Doc) (hs : r.state = .doc d) (h : DP.DocInv r) (π : List PlainDoc.Seg)
+    (hd : Ts) (hloc : d.locate π Ts.oldest = some hd) (c : Call) (hc : PlainDoc.handleOf c = some hd)
+    (hk : DP.CallKeysND c) :
+    ∃ d', (r.call c).1.state = .doc d' ∧
+      d'.view.canon = (PlainDoc.step d.view.canon π c).1 ∧
+      PlainDoc.outCanon (r.call c).2 = (PlainDoc.step d.view.canon π c).2 :=
+  DP.doc_call_refines r d hs h π hd hloc c hc hk
+
+/-- the handles of the live tree are exactly the nodes that are not garbage: every live node sits at a path … -/
+theorem doc_live_handle_sits_at_a_path (r : Replica) (d : Doc) (hs : r.state = .doc d) (h : DP.DocInv r) (hd : Ts)
+    (n : DNode) (hf : d.find hd = some n) (hg : d.garbage hd = false) : ∃ π, d.locate π Ts.oldest = some hd :=
+  DP.doc_live_handle_has_path r d hs h hd n hf hg
+
+/-- … and a node that sits at a path is live -/
+theorem doc_path_means_live (r : Replica) (d : Doc) (hs : r.state = .doc d) (h : DP.DocInv r) (π : List PlainDoc.Seg)
+    (hd : Ts) (hloc : d.locate π Ts.oldest = some hd) : d.garbage hd = false ∧ (d.find hd).isSome :=
+  DP.doc_located_not_garbage r d hs h π hd hloc
+
+/-- an already deleted container (the node or one of its ancestors was removed or replaced): every mutating call
+    through its handle is refused … -/
+theorem doc_deleted_container_is_refused (r : Replica) (d : Doc) (hs : r.state = .doc d) (h : DP.DocInv r) (hd : Ts)
+    (hg : d.garbage hd = true) (c : Call) (hc : PlainDoc.handleOf c = some hd) (hm : DP.isMutating c = true) :
+    ∃ e, (r.call c).2 = .err e :=
+  DP.doc_deleted_container_refused r d hs h hd hg c hc hm
+
+/-- … and a refused document call (whatever the reason: wrong container kind, null value, index out of range, deleted
+    container, unknown handle) changes nothing at all: readable state, identifiers, queued operations -/
+theorem doc_refused_is_noop (r : Replica) (c : Call) (h : DP.DocInv r) (e : Nat) (he : (r.call c).2 = .err e) :
+    (r.call c).1 = r :=
+  DP.doc_call_err_noop r c h e he
+
+/-- no document call panics -/
+theorem doc_never_panics (r : Replica) (c : Call) (h : DP.DocInv r) (w : String) : (r.call c).2 ≠ .panic w :=
+  DP.doc_call_no_panic r c h w
+
+/-- a successful document call queues nothing (a read) or exactly one operation carrying the next identifier -/
+theorem doc_ok_queues_at_most_one (r : Replica) (c : Call) (h : DP.DocInv r) (v : Ret) (hok : (r.call c).2 = .ok v) :
+    (r.call c).1.buffer = r.buffer ∨ ∃ o : Op, (r.call c).1.buffer = r.buffer ++ [o] ∧ o.id = r.opId.next :=
+  DP.doc_call_ok_queues_one r c h v hok
 
 end Orda.Props.C03
